@@ -312,10 +312,11 @@ class Run:
 # ------------------------------------------------------------------------------------------------
 # utapdump jobs
 def build_utapdump(flavour='rel'):
-    import gen_kinds
+    import gen_kinds, gen_trace
     gen_kinds.write_header()
+    gen_trace.write()
     return build_bin('utapdump', ['utapdump.cpp'], flavour, extra=['-I' + os.path.join(WORK, 'gen')],
-                     header_deps=[os.path.join(WORK, 'gen', 'kinds_gen.h')])
+                     header_deps=[os.path.join(WORK, 'gen', 'kinds_gen.h'), os.path.join(VERIF, 'harness', 'trace_gen.h')])
 
 
 class Job:
@@ -339,6 +340,7 @@ class Job:
     def laws(self, text): return self.data('LAWS', '', text)
     def query(self, text, rt=True): return self.data('QUERY', 'rt' if rt else 'plain', text)
     def part(self, partno, text): return self.data('PART', str(partno), text)
+    def trace(self, what, text): return self.data('TRACE', str(what), text)
     def pretty(self, partno, text): return self.data('PRETTY', str(partno), text)
     def prettyq(self, text): return self.data('PRETTYQ', '', text)
     def cmd(self, line):
